@@ -294,7 +294,20 @@ def rw_R15(text):
     return out, n
 
 
-REWRITES = {'R15': rw_R15, 'R14': rw_R14, 'R13': rw_R13, 'R12': rw_R12, 'R11': rw_R11, 'R10': rw_R10, 'R9': rw_R9, 'R1': rw_R1, 'R2': rw_R2, 'R3': rw_R3, 'R4': rw_R4, 'R5': rw_R5, 'R8': rw_R8}
+def rw_R16(text):
+    """b'x' | b'y' | .. if GUARD =>   ->   __c if (__c == b'x' || __c == b'y' || ..) && (GUARD) =>   (a match arm over byte literals with a guard)"""
+    n = 0
+    pat = re.compile(r"((?:b'(?:\\.|[^'\\])'\s*\|\s*)+b'(?:\\.|[^'\\])')[ \t]+if[ \t]+([^\n]*?)[ \t]*=>")
+    def rep(m):
+        nonlocal n
+        alts = [a.strip() for a in re.findall(r"b'(?:\\.|[^'\\])'", m.group(1))]
+        n += 1
+        return '__c if (%s) && (%s) =>' % (' || '.join('__c == ' + a for a in alts), m.group(2))
+    out = pat.sub(rep, text)
+    return out, n
+
+
+REWRITES = {'R16': rw_R16, 'R15': rw_R15, 'R14': rw_R14, 'R13': rw_R13, 'R12': rw_R12, 'R11': rw_R11, 'R10': rw_R10, 'R9': rw_R9, 'R1': rw_R1, 'R2': rw_R2, 'R3': rw_R3, 'R4': rw_R4, 'R5': rw_R5, 'R8': rw_R8}
 REWRITE_DOC = {
     'R1': 'for &T{f,..} in &E[a..b]  ->  for __i in a..b { let f = E[__i].f; (Verus: no ref patterns)',
     'R2': 'Some(&b) => b  ->  Some(b) => *b (Verus: no ref patterns)',
@@ -311,6 +324,7 @@ REWRITE_DOC = {
     'R13': 'E.iter()[.rev()].take_while(|c| COND).count() -> a counting while-loop over the same elements from the front [back] (Verus: no iterator adapters)',
     'R14': 'E.iter().all(|e| COND) -> a while-loop over the same elements that stops at the first one failing COND (Verus: no iterator adapters)',
     'R15': 'E.bytes().filter(|&b| COND).count() -> a counting while-loop over E.as_bytes() (Verus: no iterator adapters)',
+    'R16': "b'x' | b'y' | .. if G =>  ->  __c if (__c == b'x' || __c == b'y' || ..) && (G) =>  (Verus: no or-patterns with a guard over an indexed scrutinee)",
     'ARMSUB': 'a named match arm (delegation to regex-automata) is replaced by a call to an assumed shim; the dropped text is listed in dropped_code',
 }
 
